@@ -626,7 +626,12 @@ class Evaluator:
                 and v.func.attr in self.MUTATORS and isinstance(v.func.value, ast.Name) \
                 and v.func.value.id in self.env.vars and t[0] == "call":
             old = self.env.vars[v.func.value.id]
-            if old[0] in ("list", "dict", "set", "mut", "comp", "carried", "loop", "phi"):
+            fresh_copy = old[0] == "call" and (
+                (old[1][0] == "a" and old[1][2] == "copy" and not old[2])
+                or (fn_name(old[1]) or "") in ("dict", "list", "set", "copy.copy",
+                                               "copy.deepcopy"))
+            if old[0] in ("list", "dict", "set", "mut", "comp", "carried", "loop", "phi") \
+                    or fresh_copy:
                 self.env.vars[v.func.value.id] = ("mut", old, v.func.attr, t[2], t[3])
         if t[0] == "call" or (t[0] not in ("c",)):
             self.res.effects.append(Effect(t, st, self.cond))
